@@ -233,6 +233,7 @@ def exact_at_coincidence(t):
 
 
 def rule_r26_ranges(ctx, prog, rule="R26", bodies=None):
+    prog = prog.inlined_view()      # private helpers that do not exist on the reference tree are read in place
     lo, hi, q, n = ("sym", "lower"), ("sym", "higher"), ("sym", "q"), ("sym", "len")
     names = {1: lo, 2: hi, 3: q, 4: n}
     n_ok = 0
@@ -334,6 +335,7 @@ def monotone(t, var, nonneg):
 
 def rule_c19_indexes(ctx, prog, rule="R27"):
     """lower_index / higher_index are floor / ceil of ONE quantity that is non-decreasing in q, 0 at q = 0 and len−1 at q = 1"""
+    prog = prog.inlined_view()      # private helpers that do not exist on the reference tree are read in place
     from .terms import sympy_equal, subst_t, canon_op
     q, n = ("sym", "q"), ("sym", "len")
     lob = prog.find("quantile::interpolate::lower_index")
@@ -386,6 +388,7 @@ def rule_c19_indexes(ctx, prog, rule="R27"):
 
 def rule_c19_fraction_monotone(ctx, prog, rule="R27"):
     """at fixed neighbours lower ≤ higher every strategy is non-decreasing in the interpolation fraction"""
+    prog = prog.inlined_view()      # private helpers that do not exist on the reference tree are read in place
     lo, hi, q, n = ("sym", "lower"), ("sym", "higher"), ("sym", "q"), ("sym", "len")
 
     def strip_conv(t):
